@@ -479,6 +479,9 @@ class Flat:
         args = [V(t, v) for t, v in d['args']]
         asg = '%s = ' % r if (r is not None and s.res(d['rty']).k != 'void') else ''
         if c[0] == 'asm': return '/* asm */;'
+        if c[0] == 'cast' and c[1] == 'bitcast' and c[3][0] == 'glob' and c[3][1] in s.m.funcs and not s.m.funcs[c[3][1]].va \
+                and len(s.m.funcs[c[3][1]].params) == len(args):
+            c = c[3]     # a call through a bitcast of a known function (transparent-union argument types): a direct call
         if c[0] == 'glob':
             n = c[1]
             if n.startswith('llvm.'):
